@@ -265,6 +265,27 @@ hash wherever the first half has one width.) -/
 def FpInj (H : Hashes) (s₁ t₁ s₂ t₂ : Bytes) : Prop :=
   H.outer s₁ ++ H.lens t₁ = H.outer s₂ ++ H.lens t₂ → s₁ = s₂ ∧ t₁ = t₂
 
+/-- `FpInj` from the no-collision hypothesis of each hash (`HashInj`), given that the second half of
+the printed checksum has one width for both fingerprints (it is printed `%016x`: always 16 digits) -/
+theorem FpInj_of_HashInj (H : Hashes) (s₁ t₁ s₂ t₂ : Bytes)
+    (hw : (H.lens t₁).length = (H.lens t₂).length)
+    (h1 : HashInj H.outer s₁ s₂) (h2 : HashInj H.lens t₁ t₂) : FpInj H s₁ t₁ s₂ t₂ := by
+  intro h
+  have := List.append_inj' h hw
+  exact ⟨h1 this.1, h2 this.2⟩
+
+/-- non-vacuity: two hashes that are injective outright and print the second half in a fixed width
+(first half the stream itself, second half the first 16 bytes of the table, zero-padded) — on the
+`ab`/`c` against `a`/`bc` tables (16 bytes each) every hypothesis holds -/
+example :
+    let H : Hashes := ⟨id, fun t => (t ++ List.replicate 16 0).take 16⟩
+    let t₁ := be64 2 ++ be64 1
+    let t₂ := be64 1 ++ be64 2
+    (H.lens t₁).length = (H.lens t₂).length ∧ HashInj H.outer [97, 98, 99] [97, 98, 99] ∧ HashInj H.lens t₁ t₂ ∧
+    FpInj H [97, 98, 99] t₁ [97, 98, 99] t₂ := by
+  refine ⟨by decide, fun _ => rfl, fun h => absurd h (by decide), ?_⟩
+  exact FpInj_of_HashInj _ _ _ _ _ (by decide) (fun _ => rfl) (fun h => absurd h (by decide))
+
 /-- **A changed (stream, length table) pair forces a run** (under `FpInj` for the stored and the
 present pair). -/
 theorem C05_detect_rerun {i : Nat} {t : Task} (ht : pr.tasks[i]? = some t) (hm : t.method = .checksum)
